@@ -379,6 +379,7 @@ func c03Run(c *core.Ctx) {
 		})
 	}
 	c03Chains(c)
+	c03Heredocs(c)
 	// B. operators
 	maxOps := 3
 	if c.Thorough() {
@@ -476,7 +477,7 @@ func init() {
 		Prop: "C03", Level: "model_checking", Exhaust: true, QuickSecs: 500, ThorSecs: 3000,
 		Rule: "A (generic): every sentence of the E-lr corpora the reference LR driver accepts (rules, 2-paths; thorough: nullable combinations, 3-paths) under every version of its family, and every token replaced by every alternative lexeme (letter case, cast spellings, synonyms => the very same tree; literal forms => the same node kinds): zero errors, every token's text allowed by the slot vocabulary for the (kind, slot) holding it. " +
 			"B (operators): every flat expression with <= 3 (thorough 4) operators over 28 binary, 14 assignment, 18 prefix operators, ++/--, both ternaries and instanceof, distinct atoms, under 7.4 and 5.6: the tree must equal the one an independent precedence-climbing model of the PHP manual's operator table gives, and expressions the model rejects (non-associative chains) must be rejected. " +
-			"B2: every postfix chain of <= 5 (thorough 6) operations (property, method call, offsets, call, static members) on a variable and on a name: accepted iff the reference LR driver accepts it, and under PHP 7 the tree of a chain on a variable is the left-to-right fold. C: hand-written construct schemas (source => expected kind(role:child) rendering) for the constructs whose roles can be confused; D: every if/else nesting without braces to depth 3 (thorough 4) — else belongs to the nearest if; E: literal forms (int/float classification at the overflow boundary, radix prefixes, separators, strings, heredoc/nowdoc parts verbatim); F: version-gated constructs under 10 versions. " +
+			"B2: every postfix chain of <= 5 (thorough 6) operations (property, method call, offsets, call, static members) on a variable and on a name: accepted iff the reference LR driver accepts it, and under PHP 7 the tree of a chain on a variable is the left-to-right fold. E-heredoc: every heredoc/nowdoc body of <= 4 (thorough 5) fragments over 17 fragments (label, label+digit/letter/underscore, blanks, LF/CRLF/CR, `;` `)` `,`, interpolations) under 7.4/7.3/7.2/5.6: the node must end at the closing label a reference model of the manual's rules finds (before 7.3: alone at line start, optional `;`, line terminator; from 7.3: indented, closed by a non-identifier character), and unterminated heredocs must be reported. C: hand-written construct schemas (source => expected kind(role:child) rendering) for the constructs whose roles can be confused; D: every if/else nesting without braces to depth 3 (thorough 4) — else belongs to the nearest if; E: literal forms (int/float classification at the overflow boundary, radix prefixes, separators, strings, heredoc/nowdoc parts verbatim); F: version-gated constructs under 10 versions. " +
 			"states = flat expressions enumerated and judged by the operator model, transitions = model verdicts (accept/reject/expected tree) replayed on the real parser, traces = corpus sentences classified by the reference LR driver and replayed. non-trivial = program parsed; distinct by (version, expectation, source)",
 		Assume: []string{"M-syn (mc/synm) transcribes the PHP manual: operator table, construct shapes, literal forms, version gating"},
 		Run:    c03Run,
